@@ -7,7 +7,8 @@ CONSTANTS
   Handles <- B_Handles
   DepSets <- B_DepSets
   HandlerSeqs <- B_HSeqs
-  UpRegs <- B_UpRegs
+  UpProgs <- B_UpProgs
+  CRProg <- B_CR
   QuitOn = TRUE
   QuitDeferred = TRUE
   DefCap = 1
@@ -23,4 +24,5 @@ PROPERTY ExactlyOnce
 PROPERTY FiredForever
 PROPERTY NeverEarly
 PROPERTY LifeLogged
+PROPERTY CROnce
 CHECK_DEADLOCK FALSE
